@@ -254,7 +254,13 @@ pub fn scenario(seed: u64, opts: &Opts) -> Made {
             with_unknown = m.clone();
             let at = rng.usize(with_unknown.answers.len() + 1);
             let rdata: Vec<u8> = (0..1 + rng.usize(24)).map(|k| (k * 37 + 3) as u8).collect();
-            with_unknown.answers.insert(at, wire::rec(&wire::name("svc-binding.local"), *rng.pick(&[65u16, 25, 99]), 1, 120, wire::RData::Raw(rdata)));
+            let rec = if rng.chance(1, 3) {
+                // (or one it knows and has no use for: HINFO, two character-strings)
+                wire::rec(&wire::name("svc-binding.local"), 13, 1, 120, wire::RData::Raw(vec![3, b'x', b'8', b'6', 5, b'L', b'i', b'n', b'u', b'x']))
+            } else {
+                wire::rec(&wire::name("svc-binding.local"), *rng.pick(&[65u16, 25, 99]), 1, 120, wire::RData::Raw(rdata))
+            };
+            with_unknown.answers.insert(at, rec);
             &with_unknown
         } else {
             m
